@@ -108,7 +108,7 @@ pub fn veq(a: &V, b: &V) -> bool {
     }
 }
 
-/// Same-type ordering used by range scans (`find_nodes_in_range`): Int/Int, Float/Float (partial),
+/// Ordering used by range scans (`find_nodes_in_range`): Int/Int, Float/Float (partial), Int/Float by value,
 /// String/String, Bool/Bool; everything else is incomparable.
 pub fn vcmp(a: &V, b: &V) -> Option<std::cmp::Ordering> {
     match (a, b) {
@@ -116,6 +116,10 @@ pub fn vcmp(a: &V, b: &V) -> Option<std::cmp::Ordering> {
         (V::F(x), V::F(y)) => f64::from_bits(*x).partial_cmp(&f64::from_bits(*y)),
         (V::Str(x), V::Str(y)) => Some(x.cmp(y)),
         (V::Bool(x), V::Bool(y)) => Some(x.cmp(y)),
+        // Int64 and Float64 compare by value through f64, as the generic filter operator does
+        // (repo fix 2b15572 "range lookup compares Int64 and Float64 by value like the filter operator")
+        (V::Int(x), V::F(y)) => (*x as f64).partial_cmp(&f64::from_bits(*y)),
+        (V::F(x), V::Int(y)) => f64::from_bits(*x).partial_cmp(&(*y as f64)),
         _ => None,
     }
 }
